@@ -12,6 +12,31 @@ type GenOpts struct {
 	MaxChildren int
 	MaxData     int
 	MaxBigBits  int
+	// TextMode restricts text strings: 0 = arbitrary bytes, 1 = valid UTF-8 (JSON-representable, control
+	// characters included), 2 = XML-representable (no C0 controls except tab/LF/CR, no U+FFFE/U+FFFF).
+	TextMode int
+}
+
+func genText(r *rng.R, mode, max int) []byte {
+	n := r.Intn(max + 1)
+	var rs []rune
+	for i := 0; i < n; i++ {
+		switch r.Intn(8) {
+		case 0:
+			rs = append(rs, rng.Pick(r, []rune{'<', '>', '&', '"', '\'', '\\', '/', ' ', 'é', 'ß', '€', '漢', '😀', '\t', '\n', '\r'}))
+		case 1:
+			if mode == 1 {
+				rs = append(rs, rune(r.Intn(0x20)), 0x7F)
+			} else {
+				rs = append(rs, 'x')
+			}
+		case 2:
+			rs = append(rs, rune(0x20+r.Intn(0x5F)))
+		default:
+			rs = append(rs, rune('a'+r.Intn(26)))
+		}
+	}
+	return []byte(string(rs))
 }
 
 var interestingTags = []int{0x420001, 0x420078, 0x42007B, 0x42000D, 0x540001, 0x000001, 0xFFFFFF, 0x420008, 0x42005C}
@@ -107,6 +132,10 @@ func Gen(r *rng.R, o GenOpts, depth int) *Item {
 		} else {
 			it.Int = int64(r.U64()) >> uint(r.Intn(64))
 		}
+		if k == KDate && o.TextMode > 0 {
+			// dates within years 1..9999 (RFC 3339 representable)
+			it.Int = -62135596800 + int64(r.U64()%315537897600)
+		}
 	case KBig:
 		it.Big = GenBig(r, o.MaxBigBits)
 	case KEnum, KInterval:
@@ -119,6 +148,9 @@ func Gen(r *rng.R, o GenOpts, depth int) *Item {
 		it.Bool = r.Bool()
 	case KText, KBytes:
 		it.Data = genData(r, o.MaxData)
+		if k == KText && o.TextMode > 0 {
+			it.Data = genText(r, o.TextMode, min(o.MaxData, 16))
+		}
 	}
 	return it
 }
